@@ -534,6 +534,30 @@ func SetValueT(
 	return nil
 }
 
+// SetOwnValueT writes the value slot of the class itself. (SetValueT assigns
+// to the nearest ancestor that already has a slot of that name, which is right
+// for instance variables but not for the declared parameters of a method: a
+// subclass redeclaring a keyword must not overwrite its superclass's.)
+func SetOwnValueT(
+	frame string,
+	class string,
+	method string,
+	variable string,
+	t *T,
+	isStatic bool,
+) {
+
+	if variable == "" {
+		return
+	}
+
+	if variable[0] == '*' {
+		variable = variable[1:]
+	}
+
+	TFrame[valueTFrameKey(frame, class, method, variable, isStatic)] = t
+}
+
 func getParentValueT(
 	frame string,
 	class string,
